@@ -8,6 +8,7 @@ import (
 	"os"
 	"path/filepath"
 	"sync"
+	"sync/atomic"
 	"time"
 
 	"github.com/alibaba/RedisShake/pkg/libs/io/pipe"
@@ -771,7 +772,7 @@ func c09FreeReader(rd pipe.Reader, fc *freeCase, rng *prng.R, got *uint64, rerrO
 	*got = pos
 }
 
-var freeWatchdogs int
+var freeWatchdogs int32
 
 func runFree(r *res.R, fc *freeCase, scratch string) {
 	var rd pipe.Reader
@@ -800,7 +801,7 @@ func runFree(r *res.R, fc *freeCase, scratch string) {
 	select {
 	case <-done:
 	case <-time.After(20 * time.Second):
-		freeWatchdogs++
+		atomic.AddInt32(&freeWatchdogs, 1)
 		sw, _ := gstate.Of("ppkg.c09FreeWriter")
 		sr, _ := gstate.Of("ppkg.c09FreeReader")
 		if (sw == gstate.Parked || sw == gstate.Gone) && (sr == gstate.Parked || sr == gstate.Gone) {
@@ -862,12 +863,26 @@ func c09freeChild(raw json.RawMessage, scratch string) {
 			fc.Total = fc.Cap*rng.Range(1, 3) + rng.Intn(5000)
 		}
 		fc.CloseAt = rng.Intn(fc.Total + 1)
-		if freeWatchdogs >= 2 {
+		if atomic.LoadInt32(&freeWatchdogs) >= 2 {
 			r.Note("free-running batch cut short after 2 watchdog verdicts")
 			break
 		}
 		wk.ChildCase(i, fc)
-		runFree(r, fc, scratch)
+		if !ex.File && i%4 == 3 {
+			// several pipes are alive in one process (one per source), and pipes of the same capacity have come and gone
+			// before them (earlier sync rounds): this pipe runs next to a twin of the same capacity with other content
+			twin := *fc
+			twin.Seed = rng.U64() >> 8
+			twin.CloseBy, twin.CloseAt = rng.PickS("writer", "reader"), rng.Intn(twin.Total+1)
+			var pair sync.WaitGroup
+			pair.Add(1)
+			go func() { defer pair.Done(); runFree(r, &twin, scratch) }()
+			runFree(r, fc, scratch)
+			pair.Wait()
+			r.Count("free_pipe_pairs_alive_together", 1)
+		} else {
+			runFree(r, fc, scratch)
+		}
 		if i == a.Start {
 			r.Sample(map[string]interface{}{"mode": "free-running", "case": fc})
 		}
@@ -878,7 +893,7 @@ func c09freeChild(raw json.RawMessage, scratch string) {
 func c09(c *wk.Ctx) {
 	r := c.R
 	r.Rule = "Mode A: seeded single-threaded programs of Write/Read/Buffered/Available/Close ops (chunks 0,1,cap-1,cap,cap+1,2cap+3,random; close at any step by either side, nil/custom error) executed one op at a time on helper goroutines; a byte-FIFO model predicts result-or-blocks, blocking/waking decided by goroutine state (parked in sync.Cond.Wait) not by timers; position-coded data. " +
-		"Mode B: free-running writer/reader goroutines with random chunking/yields and a close, under the race detector; stream-prefix + drain-before-error oracle. Long haul: 2^32 + 3 MiB bytes through one memory pipe that is never empty (capacities 192 KiB / 1 MiB / 12 KiB), every 8 bytes carrying their own stream offset. distinct = (backend, capacity, #blocks, #ring wraps, close kinds)"
+		"Mode B: free-running writer/reader goroutines with random chunking/yields and a close, under the race detector; stream-prefix + drain-before-error oracle; every fourth memory case runs next to a twin pipe of the same capacity with other content (after earlier pipes of that capacity were closed). Long haul: 2^32 + 3 MiB bytes through one memory pipe that is never empty (capacities 192 KiB / 1 MiB / 12 KiB), every 8 bytes carrying their own stream offset. distinct = (backend, capacity, #blocks, #ring wraps, close kinds)"
 	if c.Replay != "" {
 		replayC09(c)
 		return
@@ -929,6 +944,7 @@ func c09(c *wk.Ctx) {
 	r.Floor("reader_wakeups", 50)
 	r.Floor("ring_wraps", 50)
 	r.Floor("free_bytes", 1000000)
+	r.Floor("free_pipe_pairs_alive_together", 30)
 	r.Floor("long_haul_gib_streamed", 8)
 	r.Assume("blocked/woken is read from runtime.Stack goroutine states ([sync.Cond.Wait]); one writer and one reader goroutine as in the property")
 }
